@@ -29,7 +29,7 @@ ASSUMPTIONS = [
     "coefficients are generated regular at every integer (a rational function with a pole at an integer is not representable faithfully by functions of N; documented limitation, see DESIGN section 4)",
     "the matrix model (vf/models/fock.py) is the reference; comparisons only on columns at distance >= degree from the truncation edge, tolerance 1e-8 relative",
 ]
-BUDGET = {"quick": dict(cases=1500, seconds=75), "thorough": dict(cases=24000, seconds=540)}
+BUDGET = {"quick": dict(cases=1500, seconds=300), "thorough": dict(cases=24000, seconds=540)}
 CASE_TIMEOUT = 120
 MONITORS = {"product": False, "solvers": False}
 MONITOR_VERDICTS = ()
